@@ -65,6 +65,9 @@ fn c43_b_no_links_no_window() {
 
 #[cfg(all(kani, test))]
 mod replay {
+    extern crate std;
+    #[allow(unused_imports)]
+    use std::{vec, vec::Vec};
     use super::*;
     include!(concat!(env!("VERIF_REPLAY_DIR"), "/statime_algo__filter.rs"));
 }
